@@ -29,6 +29,18 @@ def gen_cases(rng, tier, count=None):
     out = []
     for i in range(4 if tier == "quick" else 48):
         out.append(TS.long_case(rng, tier, ["HCT", "VHCT"][i % 2]))
+    for i in range(120 if tier == "quick" else 2400):
+        # short T-HOO runs with coarse, widely spread discrete rewards and large nu: exact ties between sibling
+        # B-values, B determined by the children rather than by the cell's own U
+        c = TS.tree_case(rng, tier, "T_HOO")
+        c["n"] = c["T"] = int(rng.integers(100, 160))
+        c["params"] = {"nu": float(10 ** rng.uniform(0, 0.9)), "rho": float(rng.uniform(0.3, 0.8))}
+        c["reward"]["family"] = str(rng.choice(["int3wide", "int3wide", "int3wide", "intwide", "intnormal", "quant5"]))
+        if rng.random() < 0.6:
+            c["part"] = str(rng.choice(["Bin", "RBin", "K2", "RK2"]))
+        c.pop("resonant", None)
+        c["_cost"] = 0.3
+        out.append(c)
     for i in range(count):
         if i % 5 == 4:
             out.append(TS.wrapper_case(rng, tier))
